@@ -32,6 +32,10 @@ func selfTestSpaces() []space {
 		{alpha: leanStale, n: 2, depth: 2, dangOp: true, staleOp: true, cfgs: plainPair},
 		{alpha: midStale, n: 2, depth: 1, cfgs: plainPair},
 		{alpha: leanStale, n: 3, depth: 1, rooted: true, cfgs: plainPair},
+		// every spelling of a short filter chain, also into encrypted targets
+		{alpha: spell, n: 1, depth: 2, dangOp: true, cfgs: [][2]string{{"none", "1.4"}, {"aes-128", "1.7-aes128"}, {"none", tgtRC4}}},
+		// hand-made direct values with Go nils inside
+		{alpha: lean, n: 1, depth: 2, directOp: true, cfgs: plainPair},
 	}
 }
 
@@ -107,7 +111,19 @@ func selfTestOracle(rn *runner) error {
 			}
 		}
 	}
-	for _, p := range []string{"R0 C1 D2 Rx G0 G2", ""} {
+	for _, o := range directValues(3) {
+		o2, err := parseObj(o.String())
+		if err != nil || o2.String() != o.String() {
+			return fmt.Errorf("direct value syntax does not round trip: %q: %v", o.String(), err)
+		}
+	}
+	for _, o := range spell.kinds(2) {
+		o2, err := parseObj(o.String())
+		if err != nil || o2.String() != o.String() || o2.V != o.V {
+			return fmt.Errorf("object syntax does not round trip: %q: %v", o.String(), err)
+		}
+	}
+	for _, p := range []string{"R0 C1 D2 Rx G0 G2", "", "V:<n1> V:[[N]] V:M R0 V:[<n>]"} {
 		prog, err := parseProg(p, 3)
 		if err != nil || progString(prog) != p {
 			return fmt.Errorf("program syntax does not round trip: %q: %v", p, err)
@@ -170,6 +186,17 @@ func selfTestOracle(rn *runner) error {
 		{flawNestedString, "[<s>]", "R0", "value-differs:string"},
 		{flawNestedRef, "<[1]> i", "R0", "copied-object-is-null"},
 		{flawNestedRef, "S0<<1>> i", "R0", "copied-object-is-null"},
+		// spellings of short filter chains ("Sh<>": /Filter /Crypt; "Sm<>": /Filter [/Crypt] /DecodeParms [<<...>>]; "So<>": [/Crypt /FlateDecode])
+		{flawStreamBytes, "Sh<>", "R0", "stream-bytes-differ:stream=name:Crypt;parms:absent"},
+		{flawStreamBytes, "Sm<>", "C0", "stream-bytes-differ:stream=array:Crypt;parms:array"},
+		{flawStreamBytes, "So<>", "R0", "stream-bytes-differ:stream=array:Crypt+FlateDecode;parms:array"},
+		{flawStreamBytes, "S8<s>", "R0", "stream-bytes-differ:stream=array:FlateDecode;parms:absent"},
+		{flawNestedString, "Sc<[s]>", "R0", "value-differs:string"},
+		// hand-made direct values
+		{flawNullInArray, "i", "V:[ni]", "array-length"},
+		{flawDropEntry, "i", "V:<ni>", "dict-entry-lost"},
+		{flawDeadRefKept, "[x]", "V:[0N]", "dead-reference-not-null"},
+		{flawIgnoreRedir, "i", "D0 V:<n0>", "redirect-not-honoured"},
 	}
 	for _, p := range plants {
 		g, err := ParseGraph(p.graph)
